@@ -6,6 +6,8 @@ R-C06.2  limit forwarding: at every call site of a function that takes `max_type
 R-C06.3  creation is gated: get_dict_type creates a TypedDict only for all-str keys, 0 < size <= limit;
          merging re-applies the limit (also for a single TypedDict) and falls back to Dict[str, ...]
 R-C06.4  rewriters and stub generation keep the field set of a TypedDict (never grow it)
+R-C06.7  tracing blocks (nested, sequential) with real tracer objects: a trace reaches only the logger of the block that
+         recorded it, with types inferred under that block's limit
 """
 from __future__ import annotations
 
@@ -387,6 +389,8 @@ def run(ctx: Ctx, repo: Repo, tier: str) -> None:
     ctx.attempt(rule_no_growth, ctx, repo)
     ctx.attempt(rule_class_stubs_kept_apart, ctx, repo)
     ctx.attempt(rule_who_may_create, ctx, repo)
+    from .blocks_model import rule_blocks
+    ctx.attempt(rule_blocks, ctx, repo, "R-C06.7")
     if concrete_err is not None:
         raise concrete_err
     ctx.settle()
